@@ -77,6 +77,18 @@ pub(super) fn run(ctx: &mut Ctx, fixes: &[Fix]) {
                 continue;
             };
             let carrier_body = body_of(&carrier);
+            // a second, later and intact binding of the same subkey (what re-binding a subkey leaves in a
+            // certificate): every binding carries its own back signature, each of them is checked
+            let newer: Option<Signature> = config_for(&mut rng, &fix.prim_sec, SignatureType::SubkeyBinding, hash, false, None).ok().and_then(|mut cfg2| {
+                cfg2.hashed_subpackets.push(sp(SubpacketData::KeyFlags(flags.clone())));
+                cfg2.hashed_subpackets.push(sp(SubpacketData::EmbeddedSignature(Box::new(back.clone()))));
+                for s in cfg2.hashed_subpackets.iter_mut() {
+                    if let SubpacketData::SignatureCreationTime(t) = &mut s.data {
+                        *t = pgp::types::Timestamp::from_secs(t.as_secs().saturating_add(3600));
+                    }
+                }
+                cfg2.sign_subkey_binding(&fix.prim_sec, &fix.prim_pub, &pw, &fix.sub_pub).ok()
+            });
             let mut t0 = Tables::default();
             if let Err(e) = log_original(&mut t0, &carrier, &rfc, &fix.prim_pub).and_then(|_| log_original(&mut t0, &back, &rfc, &fix.sub_pub)) {
                 ctx.oracle("original_verifies", "RFC 9580 5.2.4 digest of a binding signature", &label, false, &e);
@@ -178,10 +190,22 @@ pub(super) fn run(ctx: &mut Ctx, fixes: &[Fix]) {
                         let a = verdict(guarded(|| pubk.verify_bindings(&prim_vk)));
                         ctx.case(bind_req.clone(), a.clone());
                         judge(ctx, "SignedPublicSubKey::verify_bindings", &a, false);
-                        let seck = SignedSecretSubKey::new(sub_sk.clone(), vec![cs]);
+                        let seck = SignedSecretSubKey::new(sub_sk.clone(), vec![cs.clone()]);
                         let a = verdict(guarded(|| seck.verify_bindings(&prim_vk)));
                         ctx.case(bind_req, a.clone());
                         judge(ctx, "SignedSecretSubKey::verify_bindings", &a, false);
+                        // two bindings, the changed back signature in the older one (oracle only)
+                        if let Some(newer) = &newer {
+                            for order in 0..2 {
+                                let sigs = if order == 0 { vec![cs.clone(), newer.clone()] } else { vec![newer.clone(), cs.clone()] };
+                                let pubk = SignedPublicSubKey::new(sub_pk.clone(), sigs.clone());
+                                let a = verdict(guarded(|| pubk.verify_bindings(&prim_vk)));
+                                judge(ctx, "SignedPublicSubKey::verify_bindings (two bindings, the older one carries the changed back signature)", &a, false);
+                                let seck = SignedSecretSubKey::new(sub_sk.clone(), sigs);
+                                let a = verdict(guarded(|| seck.verify_bindings(&prim_vk)));
+                                judge(ctx, "SignedSecretSubKey::verify_bindings (two bindings, the older one carries the changed back signature)", &a, false);
+                            }
+                        }
                     }
                     Err(_) => {
                         ctx.case(bind_req, "err:parse".to_string());
